@@ -14,7 +14,9 @@ control: the comparator must see a difference).  The two CSV files of a pair are
 columns (no interpretation) and handed to TLC: `spec/Determinism.tla` walks both row sequences
 in lock-step, knows which columns are observable (`Obs`), checks `C09_SameChoices` and names
 position, clause and differing columns of every divergence.  Python only generates inputs,
-starts processes, ships rows and formats TLC's verdicts.
+starts processes, ships rows and formats TLC's verdicts.  Every TLC batch run also evaluates a
+dozen synthetic pairs (one perturbation of a hand-written trace per clause): the classifier
+must name each of them as intended, otherwise the run is a machinery failure.
 """
 from __future__ import annotations
 
@@ -419,7 +421,7 @@ def key_of(div):
         return f"{cl}:{h[1]}"
     if h[0] == "lead":  # different events: the one that happens earlier (the other run has nothing at that time)
         return f"{cl}:{h[1]}"
-    return f"{cl}:" + "|".join(sorted([h[1], h[2]]))
+    return f"{cl}:" + "|".join(sorted(str(x) for x in h[1:]))
 
 
 def random_features(world, run):
